@@ -720,4 +720,42 @@ InflateOK(e, idx) ==
   /\ Has(e, "DET") => Chk("DET", idx, e.sol2same)
   /\ Has(e, "C05") => (Chk("GENERATOR", idx, e.et = 0 /\ ValidGroups(e)) /\ Chk("C05", idx, InflateOK5(e)))
   /\ Has(e, "C10") => (Chk("GENERATOR", idx, e.et \in 1..4 /\ e.delta4 >= 2) /\ Chk("C10", idx, InflateOK5(e)))
+
+(***************************************************************************)
+(* Minkowski sum / difference (C08).  The result is the region swept by    *)
+(* the pattern's BOUNDARY moved along the path: p is in Sum(pattern, path) *)
+(* iff the pattern boundary reflected through the origin and translated to *)
+(* p meets the path (Diff: unreflected).  The answer can change only       *)
+(* across an edge of a parallelogram (path edge (+) +-pattern edge), so    *)
+(* the claim is made at probes farther than 2 from all those edges.        *)
+(***************************************************************************)
+MinkLast(e) == IF Len(e.path) = 1 THEN 1 ELSE IF e.closed THEN Len(e.path) ELSE Len(e.path) - 1
+MinkSg(e) == IF e.sum THEN 1 ELSE -1
+Shift(c, a, sg) == <<c[1] + sg * a[1], c[2] + sg * a[2]>>
+
+MinkFar(e, p) ==
+  \A i \in 1..MinkLast(e) : \A j \in 1..Len(e.pattern) :
+     LET c == e.path[i] d == Nxt(e.path, i) a == e.pattern[j] b == Nxt(e.pattern, j) sg == MinkSg(e) IN
+     FarClosedPath(p, <<Shift(c, a, sg), Shift(d, a, sg), Shift(d, b, sg), Shift(c, b, sg)>>, Band4)
+
+MinkTruth(e, p) ==
+  Len(e.pattern) > 0 /\ Len(e.path) > 0 /\
+  \E j \in 1..Len(e.pattern) :
+     LET ta == Shift(p, e.pattern[j], -MinkSg(e)) tb == Shift(p, Nxt(e.pattern, j), -MinkSg(e)) IN
+     IF Len(e.path) = 1 THEN OnSeg(e.path[1], ta, tb)
+     ELSE \E i \in 1..MinkLast(e) : SegsMeet(ta, tb, e.path[i], Nxt(e.path, i))
+
+C08OK(e) ==
+  /\ \A k \in 1..Len(e.sol) : PathCanonical(e.sol[k])
+  /\ \A n \in 1..Len(e.probes) :
+       LET p == e.probes[n] IN
+       /\ CanonicalAt(e.sol, FALSE, p)
+       /\ MinkFar(e, p) => (In(e.sol, p) = MinkTruth(e, p))
+       /\ (e.hasSwap /\ MinkFar(e, p)) => SameRegionAt(e.sol, e.solSwap, p)
+
+MinkOK(e, idx) ==
+  /\ Chk("OUT", idx, OutOK(e))
+  /\ Has(e, "ARGS") => Chk("ARGS", idx, e.argsSame)
+  /\ Has(e, "DET") => Chk("DET", idx, e.sol2same)
+  /\ Has(e, "C08") => Chk("C08", idx, C08OK(e))
 =============================================================================
